@@ -391,6 +391,12 @@ func (m *Meta) AlterRename(table string, from, to []string) *Meta {
 	if !ok || ts.IsTomb() {
 		panic("can't alter nonexistent table: " + table)
 	}
+	for _, col := range from {
+		lower := col + "_lower!"
+		if slices.Contains(ts.Derived, lower) || inIndex(ts, lower) {
+			panic("can't rename column used by _lower!: " + col)
+		}
+	}
 	tsNew := *ts // copy
 	tsNew.Columns = replaceUnique(ts.Columns, from, to)
 	tsNew.Derived = replace(ts.Derived, from, to)
